@@ -18,4 +18,15 @@ theorem expand_is_iupac :
 theorem builtin_tables_ok :
     ∀ t ∈ T.tables, ∀ g ∈ settings (codeOf t), TableOK A.amino g := by decide +kernel
 
+theorem rna_objects_ok :
+    NtOK A.rna ∧ A.rna.Kp = 18 ∧
+    (∀ a, a < 18 → flags (A.rna.degen.getD a []) =
+      (Iupac.denotes .rna ((Iupac.symbols .rna).getD a ' ')).map fun ch => (Iupac.canonical .rna).idxOf ch) ∧
+    (∀ g, (setInitiatorOnlyAUG A.rna g).isInit = (setInitiatorOnlyAUG A.dna g).isInit) ∧
+    (∀ x, x < 64 → ncbiCodon A.rna x = ncbiCodon A.dna x) := by
+  refine ⟨by decide +kernel, by decide, by decide +kernel, fun g => ?_, by decide +kernel⟩
+  have e : 16 * A.rna.inmapAt 65 + 4 * A.rna.inmapAt 84 + A.rna.inmapAt 71 =
+      16 * A.dna.inmapAt 65 + 4 * A.dna.inmapAt 84 + A.dna.inmapAt 71 := by decide
+  simp only [setInitiatorOnlyAUG, e]
+
 end EaselModel.Gencode.Facts
